@@ -230,6 +230,32 @@ fn split_union(r: &mut Rng, a: &PD, b: &PD) -> PD {
 fn partial_resolve(r: &mut Rng, pd: &PD) -> PD {
     pd.iter().map(|(t, e)| if r.chance(1, 3) { (if r.bool() { 'V' } else { 'H' }, *e) } else { (*t, *e) }).collect()
 }
+/// a sequence of 2-5 resolved_at(i, b) steps in arbitrary (random / back-to-front / middle-out) order; the number of
+/// unresolved crossings is tracked on the generator side; now and then an index that is out of range
+fn gen_resseq(r: &mut Rng, pd: &PD) -> String {
+    let mut cn = pd.iter().filter(|(t, _)| *t == 'X' || *t == 'M').count();
+    let k = 2 + r.below(4) as usize;
+    let mode = r.below(5);
+    let mut s = format!("resseq {} {}", fmt_pd(pd), k);
+    for _ in 0..k {
+        let i = if cn == 0 {
+            r.below(2) as usize
+        } else {
+            match mode {
+                0 => cn - 1,
+                1 => cn / 2,
+                2 => if r.chance(1, 5) { cn + r.below(2) as usize } else { r.below(cn as u64) as usize },
+                3 => if cn > 1 { 1 + r.below(cn as u64 - 1) as usize } else { 0 },
+                _ => r.below(cn as u64) as usize,
+            }
+        };
+        s.push_str(&format!(" {} {}", i, r.below(2)));
+        if i < cn {
+            cn -= 1;
+        }
+    }
+    s
+}
 fn random_word(r: &mut Rng, strands: usize, len: usize) -> Vec<i32> {
     (0..len).map(|_| {
         let i = 1 + r.below(strands as u64 - 1) as i32;
@@ -429,6 +455,18 @@ fn braid_case(b: Option<Braid>) -> String {
     }
 }
 
+fn fmt_cross(c: &Crossing) -> String {
+    let e = c.edges();
+    format!("{}[{},{},{},{}]", cchar(c.ctype()), e[0], e[1], e[2], e[3])
+}
+/// one state of a resolution sequence: the data, the number of unresolved crossings (counted on the data, not by
+/// the library) and crossing_at(j) for every j = 0..=cn (the last index is out of range: a panic)
+fn seq_state(l: &Link) -> String {
+    let cn = l.data().iter().filter(|c| matches!(c.ctype(), CrossingType::X | CrossingType::Xm)).count();
+    let at: Vec<String> = (0..=cn).map(|j| or_p(guarded(|| fmt_cross(l.crossing_at(j))), |s| s)).collect();
+    format!("{}|cn={}|lib={}|at={}", fmt_link(l), cn, l.crossing_num(), at.join("/"))
+}
+
 fn run_case(line: &str) -> String {
     guarded(|| run_case_inner(line)).unwrap_or("TOP-PANIC".into())
 }
@@ -466,6 +504,38 @@ fn run_case_inner(line: &str) -> String {
             let b = if t[2 + k] == "1" { Bit::Bit1 } else { Bit::Bit0 };
             let l = mk_link(&pd);
             or_p(guarded(|| l.resolved_at(i, b)), |l2| fmt_link(&l2))
+        }
+        "resseq" => {
+            // `resseq <link> <k> (i b)*`: k successive resolved_at(i, b) in arbitrary order on a diagram that may already
+            // contain V / H entries; both call forms (resolved_at / clone + crossing_at_mut(i).resolve(b)) must agree;
+            // a panicking step prints P and leaves the diagram as it was
+            let (pd, k) = parse_pd(&t[1..]);
+            let nsteps: usize = t[1 + k].parse().unwrap();
+            let mut l = mk_link(&pd);
+            let mut out = vec![seq_state(&l)];
+            for s in 0..nsteps {
+                let i: usize = t[2 + k + 2 * s].parse().unwrap();
+                let b = if t[3 + k + 2 * s] == "1" { Bit::Bit1 } else { Bit::Bit0 };
+                let f1 = guarded(|| l.resolved_at(i, b));
+                let f2 = guarded(|| {
+                    let mut m = l.clone();
+                    m.crossing_at_mut(i).resolve(b);
+                    m
+                });
+                match (f1, f2) {
+                    (Some(a), Some(c)) => {
+                        if a.data() != c.data() {
+                            out.push("FORMS-DIFFER".into());
+                        } else {
+                            l = a;
+                            out.push(seq_state(&l));
+                        }
+                    }
+                    (None, None) => out.push("P".into()),
+                    _ => out.push("FORMS-DIFFER".into()),
+                }
+            }
+            out.join(" ")
         }
         "mirror" => {
             let (pd, _) = parse_pd(&t[1..]);
@@ -620,6 +690,11 @@ fn main() {
                 let kk = r.below(cn as u64 + 2) as usize;
                 emit(o, format!("resby {} {}", fmt_pd(pd), bits(r, kk)));
                 emit(o, format!("resat {} {} {}", fmt_pd(pd), r.below(cn as u64 + 2), r.below(2)));
+                // sequences of resolved_at in arbitrary order, also starting from partially resolved diagrams
+                emit(o, gen_resseq(r, pd));
+                let pr = partial_resolve(r, pd);
+                emit(o, gen_resseq(r, &pr));
+                emit(o, format!("resat {} {} {}", fmt_pd(&pr), r.below(cn as u64 + 1), r.below(2)));
                 emit(o, format!("inv relab {} {}", fmt_pd(pd), fmt_pd(&relabel_random(r, pd))));
                 emit(o, format!("inv reord {} {}", fmt_pd(pd), fmt_pd(&reorder_random(r, pd))));
                 emit(o, format!("inv mirror {} {}", fmt_pd(pd), fmt_pd(&mirror_pd(pd))));
@@ -633,6 +708,7 @@ fn main() {
                 let mut mixed: PD = vec![];
                 for (t, e) in m1.iter() { let flip = r.bool(); mixed.push((if *t == 'X' && flip { 'M' } else { *t }, *e)); }
                 emit(o, format!("mirror {}", fmt_pd(&mixed)));
+                emit(o, gen_resseq(r, &mixed));
                 emit(o, format!("inv mirror {} {}", fmt_pd(&mixed), fmt_pd(&mirror_pd(&mixed))));
                 emit(o, format!("obs {}", fmt_pd(&partial_resolve(r, pd))));
                 if let Some(k) = add_kink(r, pd) {
@@ -649,6 +725,10 @@ fn main() {
                 "obs 0", "obs 1 X 0 0 1 1", "obs 1 X 0 1 1 0", "obs 1 H 0 1 1 0", "obs 1 V 0 1 1 0",
                 "obs 1 X 0 1 0 1", "obs 2 X 0 1 2 3 X 2 3 0 1", "obs 2 X 0 3 1 4 X 3 2 2 1", "obs 1 X 0 1 2 3",
                 "trav 1 X 0 1 2 3 0 0", "trav 1 X 0 0 1 1 0 0", "trav 2 X 0 3 1 4 X 3 2 2 1 0 0",
+                "resseq 3 X 1 4 2 5 X 3 6 4 1 X 5 2 6 3 2 0 0 1 1", "resseq 3 X 1 4 2 5 X 3 6 4 1 X 5 2 6 3 3 2 1 0 0 0 1",
+                "resseq 3 X 1 4 2 5 X 3 6 4 1 X 5 2 6 3 4 1 0 1 1 0 0 0 0", "resseq 3 H 1 4 2 5 X 3 6 4 1 M 5 2 6 3 2 1 1 0 0",
+                "resseq 3 H 1 4 2 5 X 3 6 4 1 V 5 2 6 3 2 1 1 0 0", "resseq 2 V 0 1 2 3 H 2 3 0 1 1 0 0", "resseq 0 1 0 1",
+                "resat 3 V 1 4 2 5 X 3 6 4 1 X 5 2 6 3 1 0",
                 "braidfrom", "braid 0", "braid 1", "braid 2", "braid 2 1", "braid 2 -1", "braid 2 1 1 1", "braid 2 1 -1",
                 "braid 3 1 1", "braid 2 2", "braid 2 0", "braidfrom 0", "braidfrom 1 0", "braidfrom 1 -2 1 -2",
                 "braidfrom -1 -1 -2 1 3 2 2 -4 -3 2 -3 -4",
@@ -725,6 +805,7 @@ fn main() {
                     emit(&mut o, format!("inv relab {} {}", fmt_pd(&pd), fmt_pd(&relabel_random(&mut r, &pd))));
                     emit(&mut o, format!("inv mirror {} {}", fmt_pd(&pd), fmt_pd(&mirror_pd(&pd))));
                     emit(&mut o, format!("mirror {}", fmt_pd(&pd)));
+                    emit(&mut o, gen_resseq(&mut r, &pd));
                 }
             }
             // 5. malformed stream: labels occurring 1, 3, 4 times; damaged valid codes
@@ -739,6 +820,7 @@ fn main() {
                 if k % 3 == 0 {
                     let cn = pd.iter().filter(|(t, _)| *t == 'X' || *t == 'M').count();
                     emit(&mut o, format!("resby {} {}", fmt_pd(&pd), bits(&mut r, cn)));
+                    emit(&mut o, gen_resseq(&mut r, &pd));
                 }
             }
             o.finish();
